@@ -1,0 +1,48 @@
+// Copyright 2023 Dimitrij Drus <dadrus@gmx.de>
+//
+// Licensed under the Apache License, Version 2.0 (the "License");
+// you may not use this file except in compliance with the License.
+// You may obtain a copy of the License at
+//
+//      http://www.apache.org/licenses/LICENSE-2.0
+//
+// Unless required by applicable law or agreed to in writing, software
+// distributed under the License is distributed on an "AS IS" BASIS,
+// WITHOUT WARRANTIES OR CONDITIONS OF ANY KIND, either express or implied.
+// See the License for the specific language governing permissions and
+// limitations under the License.
+//
+// SPDX-License-Identifier: Apache-2.0
+
+package httpx
+
+import "strings"
+
+// NormalizeRawPath percent-encodes those characters of the given raw (escaped) path, which are not
+// allowed to appear in a path as they are (like '{', '|', or bytes outside the ASCII range). Existing
+// escape sequences, including those for slashes, are left untouched. The result is what Go's http
+// server based services see for the very same request line.
+func NormalizeRawPath(rawPath string) string {
+	const upperHex = "0123456789ABCDEF"
+
+	var sb strings.Builder
+
+	sb.Grow(len(rawPath))
+
+	for i := 0; i < len(rawPath); i++ {
+		char := rawPath[i]
+
+		switch {
+		case 'a' <= char && char <= 'z', 'A' <= char && char <= 'Z', '0' <= char && char <= '9',
+			// percent sign of an escape sequence, unreserved, sub-delims, and what else is allowed in a path
+			strings.IndexByte("%-._~!$&'()*+,;=:@/[]", char) >= 0:
+			sb.WriteByte(char)
+		default:
+			sb.WriteByte('%')
+			sb.WriteByte(upperHex[char>>4])  //nolint:mnd
+			sb.WriteByte(upperHex[char&0xf]) //nolint:mnd
+		}
+	}
+
+	return sb.String()
+}
